@@ -159,6 +159,14 @@ func (s *segmentMetadata) getIndex(vecIdx VectorIndex, txtIdx TextIndex, metaIdx
 		return nil, fmt.Errorf("index does not implement io.ReaderFrom")
 	}
 
+	// Read to EOF so that gzip verifies the trailer (CRC, length) of the last component
+	// as well: a truncated or overlong component file must not yield a usable segment
+	if n, err := io.Copy(io.Discard, combinedReader); err != nil {
+		return nil, fmt.Errorf("failed to verify segment files: %w", err)
+	} else if n != 0 {
+		return nil, fmt.Errorf("segment files contain %d unexpected trailing bytes", n)
+	}
+
 	// Cache the loaded index
 	s.cachedIndex = idx
 
